@@ -151,7 +151,78 @@ def flip_compare(src: str) -> str:
     return ast.unparse(t)
 
 
-TRANSFORMS = {"alpha": alpha_rename, "unparse": unparse_roundtrip, "commute": commute, "subneg": sub_to_addneg,
+class Temps(ast.NodeTransformer):
+    """`return e` -> `_rv = e; return _rv`; `x = f(g(..), ...)` -> `_t = g(..); x = f(_t, ...)` (first positional argument only:
+    it is the first thing evaluated after the callee expression, so hoisting it keeps the evaluation order of effects)."""
+
+    def __init__(self):
+        self.n = 0
+
+    def _body(self, stmts):
+        out = []
+        for st in stmts:
+            st = self.visit(st)
+            if isinstance(st, ast.Return) and st.value is not None and not isinstance(st.value, (ast.Name, ast.Constant)):
+                self.n += 1
+                nm = f"_rv{self.n}"
+                out.append(ast.Assign([ast.Name(nm, ast.Store())], st.value))
+                out.append(ast.Return(ast.Name(nm, ast.Load())))
+                continue
+            if isinstance(st, ast.Assign) and isinstance(st.value, ast.Call) and st.value.args and isinstance(st.value.args[0], (ast.Call, ast.BinOp)) \
+                    and isinstance(st.value.func, (ast.Name, ast.Attribute)) and not any(isinstance(x, (ast.Starred,)) for x in st.value.args):
+                self.n += 1
+                nm = f"_t{self.n}"
+                out.append(ast.Assign([ast.Name(nm, ast.Store())], st.value.args[0]))
+                st.value.args[0] = ast.Name(nm, ast.Load())
+            out.append(st)
+        return out
+
+    def visit_FunctionDef(self, node):
+        node.body = self._body(node.body)
+        return node
+
+    def visit_If(self, node):
+        node.body = self._body(node.body)
+        node.orelse = self._body(node.orelse)
+        return node
+
+    def visit_Lambda(self, node):
+        return node
+
+    def visit_ClassDef(self, node):
+        node.body = [self.visit(x) for x in node.body]
+        return node
+
+
+def temps(src: str) -> str:
+    t = Temps().visit(ast.parse(src))
+    ast.fix_missing_locations(t)
+    return ast.unparse(t)
+
+
+class IfExpToStmt(ast.NodeTransformer):
+    """`x = a if c else b` (simple name target, directly in a function body) -> if c: x = a / else: x = b"""
+
+    def visit_FunctionDef(self, node):
+        self.generic_visit(node)
+        out = []
+        for st in node.body:
+            if isinstance(st, ast.Assign) and len(st.targets) == 1 and isinstance(st.targets[0], ast.Name) and isinstance(st.value, ast.IfExp):
+                out.append(ast.If(st.value.test, [ast.Assign([ast.Name(st.targets[0].id, ast.Store())], st.value.body)],
+                                  [ast.Assign([ast.Name(st.targets[0].id, ast.Store())], st.value.orelse)]))
+            else:
+                out.append(st)
+        node.body = out
+        return node
+
+
+def ifexp_to_stmt(src: str) -> str:
+    t = IfExpToStmt().visit(ast.parse(src))
+    ast.fix_missing_locations(t)
+    return ast.unparse(t)
+
+
+TRANSFORMS = {"temps": temps, "ifstmt": ifexp_to_stmt, "alpha": alpha_rename, "unparse": unparse_roundtrip, "commute": commute, "subneg": sub_to_addneg,
               "flipcmp": flip_compare}
 
 
